@@ -789,3 +789,36 @@ Proof.
   rewrite A1, A2. cbn [fst snd]. rewrite A3.
   split; [reflexivity|]. split; [reflexivity|]. split; [exact Hl1|]. split; [exact A6|]. split; [exact A7|]. split; [exact A8|exact A4].
 Qed.
+
+(* ---- witnesses ---------------------------------------------------------------------------------------------- *)
+(* three nodes: root -(1)-> foo -(0)-> back; _catch *)
+Definition w_nodes : list (bytes * bytes) :=
+  [(s2b "root"%string, encode_prog [IHalt; IInCmp (s2b "foo"%string) (s2b "1"%string)]);
+   (s2b "foo"%string, encode_prog [IHalt; IInCmp (s2b "_"%string) (s2b "0"%string)]);
+   (s2b "_catch"%string, encode_prog [IHalt; IInCmp (s2b "_"%string) (s2b "*"%string)])].
+Definition w_app : app :=
+  mkApp w_nodes [(s2b "root"%string, s2b "root"%string); (s2b "foo"%string, s2b "foo"%string); (s2b "_catch"%string, s2b "catch"%string)] [] [].
+Definition w_cfg : config := mkCfg 0 [] 1 0 [] [] false None.
+(* the same with an entry function that echoes the input (corpus case first-refused) *)
+Definition w_cfg_first : config := mkCfg 0 [] 1 0 [] [] false (Some [mkFres (s2b "f"%string) true 0 [] [] false]).
+Definition w_bad : bytes := s2b "!bad"%string.
+Definition w_long : bytes := rep 57 300.        (* "999…", 300 bytes: over-long, matches the pattern *)
+Definition w_longbad : bytes := rep 33 300.     (* "!!!…", 300 bytes: over-long and malformed *)
+
+Definition got_input (lg : list ev) (i : bytes) : bool :=
+  existsb (fun e => match e with
+                    | EvFunc s _ (Some x) => bytes_eqb s first_sym && bytes_eqb x i
+                    | _ => false
+                    end) lg.
+
+(* K-C17-first: the entry function runs inside init, before validation, and receives the refused bytes *)
+Lemma first_receives_refused :
+  exists (a : app) (c : config) (h : list bytes) (bad : bytes),
+    c_first c <> None /\ refused bad
+    /\ got_input (pw_log (fst (serve_pers 1000 (app_rsrc a) c (mkPw None [] [] false) (h ++ [bad])))) bad = true
+    /\ got_input (v_log (e_v (fst (request_long 1000 (app_rsrc a) c (new_engine c None [] []) bad)))) bad = true.
+Proof.
+  exists w_app, w_cfg_first, [[]], w_bad.
+  split; [discriminate|]. split; [apply refused_bool_spec; vm_compute; reflexivity|].
+  split; vm_compute; reflexivity.
+Qed.
